@@ -24,8 +24,8 @@ VARIANTS = ["c20:sweep", "c20:edits"]
 KEYWORDS = ["BEGIN", "END", "MATRIX", "TREE", ";", "TAXA", "TREES", "CHARACTERS", "DATA", "DIMENSIONS", "FORMAT",
             "TAXLABELS", "TRANSLATE", "TITLE", "LINK", "NTAX", "NCHAR", "=", "SETS", "CHARSET", "INTERLEAVE", "ALL"]
 ALPHABET = {
-    "newick": list("(),:;[]'\" \n_&") + ["a", "B", "1", "0.5", "e-3", "[&R]", "[&U]", "''", "[&W 1/2]", "[&W 1/0]", "[&W x]", "0"],
-    "nexus": list("(),:;[]'\"= \n{}-?_&#*\\/.") + ["a", "B", "1", "0", "0.5", "A", "C", "G", "T"] + KEYWORDS,
+    "newick": list("(),:;[]'\" \n_&") + ["a", "B", "1", "0.5", "e-3", "[&R]", "[&U]", "''", "[&W 1/2]", "[&W 1/0]", "[&W x]", "0", "{", "}", "{3}", "{x}"],
+    "nexus": list("(),:;[]'\"= \n{}-?_&#*\\/.") + ["a", "B", "1", "0", "0.5", "A", "C", "G", "T", "\u00b2", "\u0663"] + KEYWORDS,
     "phylip": list(" \n\t-?") + ["A", "C", "G", "T", "1", "0", "2", "10", "t1", "x"],
     "fasta": list(">\n -?;") + ["A", "C", "G", "T", "t1", "x"],
 }
@@ -256,6 +256,8 @@ class C20(Machine):
                 kwargs["extract_comment_metadata"] = rng.random() < 0.5
             if rng.random() < 0.3:
                 kwargs["store_tree_weights"] = True
+            if rng.random() < 0.15:
+                kwargs["is_parse_jplace_tokens"] = True     # edge numbers in braces ('{3}') are then part of the grammar
         text = doc["text"]
         steps = [{"k": "intact"}]
         if self.mode == "sweep":
@@ -491,8 +493,27 @@ class C20(Machine):
                     outcome = "bad_tree"
                     rec.violation("MALFORMED_TREE", dict(base, rule=str(m)), "reader returned a malformed tree: %s; fault=%s" % (m, _short(step)))
                     break
-            if mats and not cfg["kwargs"].get("ignore_invalid_chars"):
-                # (with ignore_invalid_chars the reader is asked to drop cells: shorter rows are the requested behaviour)
+            if mats and cfg["kwargs"].get("ignore_invalid_chars"):
+                # with ignore_invalid_chars the reader is asked to drop cells: shorter rows are the requested behaviour,
+                # but no row can be LONGER than declared and the number of rows is still the declared one
+                dims = declared_dimensions(schema, text)
+                if dims is not None:
+                    rec.probe("dimensions_compared_ignore_invalid")
+                    ntax, nchar = dims
+                    for m in mats:
+                        lens = sorted(set(len(m[t]) for t in m))
+                        bad = None
+                        if nchar is not None and any(l > nchar for l in lens):
+                            bad = "columns_beyond_declared"
+                        elif ntax is not None and len(m) != ntax:
+                            bad = "rows"
+                        if bad:
+                            outcome = "bad_matrix"
+                            rec.violation("DIMENSIONS_CONTRADICTED", dict(base, what=bad, intact=bool(intact)),
+                                          "document declares ntax=%s nchar=%s but the returned matrix (ignore_invalid_chars) has %d rows with lengths %s; fault=%s" % (
+                                              ntax, nchar, len(m), lens, _short(step)))
+                            break
+            elif mats:
                 dims = declared_dimensions(schema, text)
                 if dims is not None:
                     rec.probe("dimensions_compared")
